@@ -1,1 +1,274 @@
-pub fn replay_file(_p: &str) -> i32 { 2 }
+//! `mc replay <file>`: re-execute one recorded case with the plain API (no explorer), twice, and require
+//! identical observations both times. exit 1 = the violation reproduces, 0 = it does not, 2 = cannot replay.
+
+use crate::alpha::{mode_from_str, Probe};
+use crate::e1;
+use crate::rng::ScriptRng;
+use crate::subject::{api, PkOps, SkOps};
+use refmodel::{hex, unhex, PkCtx, SkCtx};
+use serde_json::Value;
+
+fn probe_of(v: &Value) -> Probe {
+    Probe { mode: mode_from_str(v["mode"].as_str().unwrap()), msg: unhex(v["msg"].as_str().unwrap()), ctx: unhex(v["ctx"].as_str().unwrap()), rnd: unhex(v["rnd"].as_str().unwrap()).try_into().unwrap() }
+}
+
+/// returns (observation, violates?)
+fn run_case(case: &Value) -> Result<(String, bool), String> {
+    let engine = case["engine"].as_str().unwrap_or("");
+    let set = case["set"].as_u64().unwrap_or(0) as u32;
+    match engine {
+        "e1" => {
+            let a = api(set);
+            let p = a.p;
+            let xi: [u8; 32] = unhex(case["seed"].as_str().unwrap()).try_into().unwrap();
+            let init = if case["init"].as_str() == Some("Rng") { e1::Init::Rng } else { e1::Init::Seed };
+            let mut st = e1::init_state(a, &xi, init)?;
+            let s0 = st.clone();
+            let mut obs = format!("init {}", st.fp());
+            let mut bad = false;
+            for act in case["path"].as_array().unwrap() {
+                let act = e1::act_from_str(act.as_str().unwrap());
+                match e1::step(a, &st, act) {
+                    Ok(s2) => {
+                        if s2 != st {
+                            bad = true;
+                        }
+                        obs += &format!(" -{act:?}-> {}", s2.fp());
+                        st = s2;
+                    }
+                    Err(e) => return Ok((format!("{obs} -{act:?}-> FAILED: {e}"), true)),
+                }
+            }
+            if !case["probe"].is_null() {
+                let pr = probe_of(&case["probe"]);
+                let pk = (a.pk_from_raw)(&st.pk);
+                let sk = (a.sk_from_raw)(&st.sk);
+                let o = e1::run_probe(pk.as_ref(), sk.as_ref(), &pr);
+                let kg = refmodel::keygen_internal(p, &xi);
+                let want = refmodel::sign(&SkCtx::new(p, &kg.sk), pr.mode, &pr.msg, &pr.ctx, &pr.rnd);
+                match &o {
+                    e1::ProbeObs::Sig(s, v) => {
+                        obs += &format!(" probe: sig {} verify={v} equals_reference={}", &hex(s)[..32], Some(s) == want.as_ref());
+                        if !*v || Some(s) != want.as_ref() {
+                            bad = true;
+                        }
+                    }
+                    other => {
+                        obs += &format!(" probe: {other:?}");
+                        bad = true;
+                    }
+                }
+            }
+            let _ = s0;
+            Ok((obs, bad))
+        }
+        "api" => {
+            let a = api(set);
+            let p = a.p;
+            let mut sk: Option<(Box<dyn SkOps>, Vec<u8>)> = None;
+            let mut pk: Option<Box<dyn PkOps>> = None;
+            let mut obs = String::new();
+            let mut bad = false;
+            for op in case["ops"].as_array().ok_or("no ops")? {
+                match op["op"].as_str().unwrap_or("") {
+                    "keygen_seed" => {
+                        let xi: [u8; 32] = unhex(op["seed"].as_str().unwrap()).try_into().unwrap();
+                        let (k, s) = (a.keygen_seed)(&xi).map_err(|p| p.0)?;
+                        let kg = refmodel::keygen_internal(p, &xi);
+                        pk = Some(k);
+                        sk = Some((s, kg.sk));
+                        obs += "keygen;";
+                    }
+                    "keygen_both" => {
+                        let xi: [u8; 32] = unhex(op["seed"].as_str().unwrap()).try_into().unwrap();
+                        let kg = refmodel::keygen_internal(p, &xi);
+                        match (a.keygen_seed)(&xi) {
+                            Err(pn) => {
+                                obs += &format!("keygen_from_seed panicked: {};", pn.0);
+                                bad = true;
+                            }
+                            Ok((k, s)) => {
+                                let same = k.to_bytes().ok().as_ref() == Some(&kg.pk) && s.to_bytes().ok().as_ref() == Some(&kg.sk);
+                                obs += &format!("keygen_from_seed equals reference: {same};");
+                                bad |= !same;
+                            }
+                        }
+                        let mut rng = ScriptRng::ok(&xi);
+                        match (a.keygen_rng)(&mut rng) {
+                            Ok(Ok((k, s))) => {
+                                let same = k.to_bytes().ok().as_ref() == Some(&kg.pk) && s.to_bytes().ok().as_ref() == Some(&kg.sk);
+                                obs += &format!("try_keygen_with_rng equals reference: {same}, rng log {:?};", rng.log);
+                                bad |= !same || rng.log != [32];
+                            }
+                            other => {
+                                obs += &format!("try_keygen_with_rng: {:?};", other.map(|r| r.map(|_| "ok")).map_err(|p| p.0));
+                                bad = true;
+                            }
+                        }
+                    }
+                    "sk_from_bytes" | "sk_from_bytes_expect" | "sk_roundtrip" | "sk_exercise" => {
+                        let b = unhex(op["sk"].as_str().unwrap());
+                        let r = (a.sk_from_bytes)(&b);
+                        let in_range = refmodel::sk_fields_in_range(p, &b);
+                        match r {
+                            Err(pn) => {
+                                obs += &format!("try_from_bytes panicked: {};", pn.0);
+                                bad = true;
+                            }
+                            Ok(Err(e)) => {
+                                obs += &format!("try_from_bytes Err({e}) (fields in range: {in_range});");
+                                bad |= in_range;
+                            }
+                            Ok(Ok(k)) => {
+                                obs += &format!("try_from_bytes Ok (fields in range: {in_range});");
+                                bad |= !in_range;
+                                match k.to_bytes() {
+                                    Ok(b2) => {
+                                        obs += &format!("into_bytes round-trips: {};", b2 == b);
+                                        bad |= b2 != b;
+                                    }
+                                    Err(pn) => {
+                                        obs += &format!("into_bytes panicked: {};", pn.0);
+                                        bad = true;
+                                    }
+                                }
+                                if let Err(pn) = k.derive_pk() {
+                                    obs += &format!("get_public_key panicked: {};", pn.0);
+                                    bad = true;
+                                }
+                                sk = Some((k, b));
+                            }
+                        }
+                    }
+                    "pk_roundtrip" => {
+                        let b = unhex(op["pk"].as_str().unwrap());
+                        match (a.pk_from_bytes)(&b) {
+                            Ok(Ok(k)) => match k.to_bytes() {
+                                Ok(b2) => {
+                                    obs += &format!("pk round-trips: {};", b2 == b);
+                                    bad |= b2 != b;
+                                }
+                                Err(pn) => {
+                                    obs += &format!("into_bytes panicked: {};", pn.0);
+                                    bad = true;
+                                }
+                            },
+                            other => {
+                                obs += &format!("try_from_bytes: {:?};", other.map(|r| r.map(|_| "ok")).map_err(|p| p.0));
+                                bad = true;
+                            }
+                        }
+                    }
+                    "sign" => {
+                        let pr = probe_of(&op["probe"]);
+                        let (k, skb) = sk.as_ref().ok_or("sign without key")?;
+                        let want = refmodel::sign(&SkCtx::new(p, skb), pr.mode, &pr.msg, &pr.ctx, &pr.rnd);
+                        let mut rng = ScriptRng::ok(&pr.rnd);
+                        match k.sign(pr.mode, &mut rng, &pr.msg, &pr.ctx) {
+                            Ok(Ok(s)) => {
+                                obs += &format!("sign -> {}.. equals reference: {};", &hex(&s)[..32], Some(&s) == want.as_ref());
+                                bad |= Some(&s) != want.as_ref();
+                            }
+                            other => {
+                                obs += &format!("sign -> {:?};", other.map(|r| r.map(|_| "sig")).map_err(|p| p.0));
+                                bad = true;
+                            }
+                        }
+                    }
+                    "verify_bytes" | "verify_with" => {
+                        let k: Box<dyn PkOps> = if let Some(b) = op["pk"].as_str().filter(|s| s.len() > 64) {
+                            match (a.pk_from_bytes)(&unhex(b)) {
+                                Ok(Ok(k)) => k,
+                                _ => return Ok(("public key import failed".into(), true)),
+                            }
+                        } else {
+                            pk.take().ok_or("verify without key")?
+                        };
+                        let mode = mode_from_str(op["mode"].as_str().unwrap());
+                        let (m, c, s) = (unhex(op["msg"].as_str().unwrap()), unhex(op["ctx"].as_str().unwrap()), unhex(op["sig"].as_str().unwrap()));
+                        let want = if let Some(b) = op["pk"].as_str().filter(|s| s.len() > 64) { refmodel::verify(&PkCtx::new(p, &unhex(b)), mode, &m, &c, &s) } else { op["expect"].as_bool().unwrap_or(false) };
+                        match k.verify(mode, &m, &s, &c) {
+                            Ok(d) => {
+                                obs += &format!("verify -> {d}, FIPS 204 reference -> {want};");
+                                bad |= d != want;
+                            }
+                            Err(pn) => {
+                                obs += &format!("verify panicked: {};", pn.0);
+                                bad = true;
+                            }
+                        }
+                    }
+                    "flip_verify" => {
+                        let mode = mode_from_str(op["mode"].as_str().unwrap());
+                        let (mut pkb, mut m, mut c, mut s) = (unhex(op["pk"].as_str().unwrap()), unhex(op["msg"].as_str().unwrap()), unhex(op["ctx"].as_str().unwrap()), unhex(op["sig"].as_str().unwrap()));
+                        let bit = op["bit"].as_u64().unwrap() as usize;
+                        let tgt = match op["field"].as_str().unwrap() {
+                            "sig" => &mut s,
+                            "pk" => &mut pkb,
+                            "msg" => &mut m,
+                            _ => &mut c,
+                        };
+                        tgt[bit / 8] ^= 1 << (bit % 8);
+                        match (a.pk_from_bytes)(&pkb) {
+                            Ok(Ok(k)) => match k.verify(mode, &m, &s, &c) {
+                                Ok(d) => {
+                                    obs += &format!("verify of the mutated tuple -> {d};");
+                                    bad |= d;
+                                }
+                                Err(pn) => {
+                                    obs += &format!("panic {};", pn.0);
+                                    bad = true;
+                                }
+                            },
+                            _ => obs += "mutated public key rejected;",
+                        }
+                    }
+                    other => return Err(format!("op '{other}' is replayed by re-running the check (./check <ID>)")),
+                }
+            }
+            Ok((obs, bad))
+        }
+        "e7" => {
+            let p = refmodel::params(set);
+            let rho: [u8; 32] = unhex(case["rho"].as_str().unwrap()).try_into().unwrap();
+            let z = crate::e7::z_from_json(p, &case["z"]);
+            let ev = crate::e7::evaluate_dyn(p, &rho, &z);
+            Ok((format!("row sums/q {:.1}, panic {:?}, matches reference {}", ev.max_abs_sum_over_q, ev.panic, ev.matches_reference), ev.panic.is_some() || !ev.matches_reference))
+        }
+        other => Err(format!("engine '{other}' cases are replayed by re-running the check (./check <ID>)")),
+    }
+}
+
+pub fn replay_file(path: &str) -> i32 {
+    let Ok(text) = std::fs::read_to_string(path) else {
+        eprintln!("cannot read {path}");
+        return 2;
+    };
+    let Ok(v) = serde_json::from_str::<Value>(&text) else {
+        eprintln!("not JSON: {path}");
+        return 2;
+    };
+    println!("replaying {} ({})", v["property"], v["summary"].as_str().unwrap_or("").chars().take(160).collect::<String>());
+    let r1 = run_case(&v["case"]);
+    let r2 = run_case(&v["case"]);
+    match (r1, r2) {
+        (Ok(a), Ok(b)) => {
+            if a != b {
+                eprintln!("MACHINERY-ERROR: two replays of the same case differ:\n  {}\n  {}", a.0, b.0);
+                return 2;
+            }
+            println!("observation: {}", a.0);
+            if a.1 {
+                println!("VIOLATION-REPRODUCED property={} replay={path}", v["property"].as_str().unwrap_or("?"));
+                1
+            } else {
+                println!("not reproduced on the current tree");
+                0
+            }
+        }
+        (Err(e), _) | (_, Err(e)) => {
+            eprintln!("cannot replay: {e}");
+            2
+        }
+    }
+}
